@@ -142,6 +142,47 @@ Proof.
   destruct (rn start =? target); [reflexivity|]. apply bic_loop_ext; assumption.
 Qed.
 
+(* where the NUMBER of the reference comes from: the stored height of its id, or it exceeds a number the forkdb
+   knows (the stored height of the parent met on the walk, or the number of the LIB written by InitLIB), or the
+   id is not stored *)
+Definition bic_num (d : forkdb) (r : ref) : Prop :=
+  (exists e', find (ri r) (store d) = Some e' /\ rn r = bnum (eb e')) \/
+  (exists y pn, num_of d y = Some pn /\ pn < rn r) \/
+  find (ri r) (store d) = None.
+
+Lemma bic_loop_num d : forall f cur target r,
+  bic_loop f d cur target = Some r -> ri r = 0 \/ bic_num d r.
+Proof.
+  induction f as [|f IH]; intros cur target r H; [discriminate|].
+  cbn [bic_loop] in H.
+  destruct (num_of d (link_of d cur)) as [pn|] eqn:Hn.
+  2:{ injection H as <-. left. reflexivity. }
+  destruct (N.eqb_spec pn target) as [E|E].
+  - injection H as <-. right. cbn [ri rn]. unfold bic_num. cbn [ri rn].
+    destruct (find (link_of d cur) (store d)) as [e'|] eqn:Fe'.
+    + left. exists e'. split; [reflexivity|]. unfold num_of in Hn. rewrite Fe' in Hn. congruence.
+    + right. right. reflexivity.
+  - destruct (N.ltb_spec pn target) as [Lt|Ge].
+    + injection H as <-. right. right. left. exists (link_of d cur), pn. cbn [rn]. auto.
+    + exact (IH _ _ _ H).
+Qed.
+
+Lemma bic_num_spec d start target r : block_in_chain d start target = Some r ->
+  r = start \/ ri r = 0 \/ bic_num d r.
+Proof.
+  unfold block_in_chain. destruct (rn start =? target).
+  - intros [= <-]. left. reflexivity.
+  - intros H. right. exact (bic_loop_num d _ _ _ _ H).
+Qed.
+
+(* a non-failing ReversibleSegment passed the guard on its start number *)
+Lemma rs_first_guard f d first cur cn acc res :
+  rs_loop f d first cur cn acc = Some (res, true) -> (first <? cn) && (cn <? rn (libref d)) = false.
+Proof.
+  destruct f as [|f]; [discriminate|]. cbn [rs_loop].
+  destruct ((first <? cn) && (cn <? rn (libref d))); [discriminate | reflexivity].
+Qed.
+
 (* ---------- ReversibleSegment, no assumption on the numbers ---------- *)
 
 Lemma rs_entries : forall fuel d first cur cn acc res,
